@@ -282,6 +282,24 @@ def run(ctx):
     ctx.trace_failures(fails, by, lambda rec, f: {'ev': rec['ev'], 'args': rec['args'], 'obs': rec['obs'], 'raised': rec['raised']})
     ctx.distinct.update(by)
     ctx.sample(named[0])
+  # check level: close / structured keys interleaved with keys of other curves, through CheckECKeySmallDifference / CheckWeakECPrivateKey
+  if not ctx.only_sid or ctx.only_sid.startswith('C10-ec-directed'):
+    from pv import drive_C16
+    saved = drive_C16.DIRECTED
+    drive_C16.DIRECTED = DIRECTED
+    try:
+      drive_C16.replay_and_validate(ctx, [], 'C10', pre_annotate=False)
+    finally:
+      drive_C16.DIRECTED = saved
+
+
+DIRECTED = [
+    ('ec', 'close-around-another-curve', {'s1': 'closeA', 's2': 'healthy384', 's3': 'closeB', 's4': 'healthyk1', 's5': 'healthy'},
+     [{'all': False, 'check': 'CheckECKeySmallDifference', 'batch': ['s1', 's2', 's3']},
+      {'all': False, 'check': 'CheckECKeySmallDifference', 'batch': ['s4', 's3', 's2', 's5', 's1']}]),
+    ('ec', 'structured-around-another-curve', {'s1': 'weakprivate', 's2': 'healthy384', 's3': 'weakprivatetop', 's4': 'healthy'},
+     [{'all': False, 'check': 'CheckWeakECPrivateKey', 'batch': ['s2', 's1', 's4', 's3']}]),
+]
 
 
 def selftest(ctx):
